@@ -24,15 +24,16 @@ class C09(Prop):
             'in some runs and none in others; per run 0-5 tests (4 ids incl. the empty string, possibly repeated), each outcome kind, payload = exc_info / details (0-3 details out of 6 names incl. '
             '"reason", "traceback", a non-ASCII name and the empty name, 0-4 chunks each biased to 0,1,2 chunks with leading/trailing/all-empty chunks, a UTF-8 '
             'character split over two chunks, 10% of the utf8 text details with bytes invalid in that charset; 15 content types incl. parameters, two pairs differing only in the letter case of a parameter value; histories with an odd number of tests hand over the same Content / ContentType objects again and again, the others build them on the fly and drop them) / reason text (empty, ASCII, non-ASCII, astral) / nothing; '
-            'tags() before and inside tests, time() before startTest and before the outcome or never; startTestRun explicit or implied. '
+            'tags() before and inside tests, time() before startTest and before the outcome or never; startTestRun explicit or left to the first startTest (40%; tags() / time() may precede that startTest). '
             'thorough adds all payloads with <= 2 details x <= 3 chunks over a 2-chunk alphabet for 3 outcome kinds. '
             'non-trivial = at least one test with a multi-chunk or empty detail, or >= 2 tests; distinct = distinct input S-expression')
     assumptions = ['translator tie (harness/pystream.py): _convert and ExtendedToStreamDecorator.startTestRun are matched statement by statement on every run (each self.status(...) call with exactly its keyword set); trusted: the translator and the reading of the loops over iter_bytes()/details.items() by TTV/Model/ConvertSrc.lean; the content-type functions (_quote, _make_content_type) are not translated (C16); trusted normalisations before matching: alpha-renaming of the locals (recognised by what is bound to them), spellings of None tests, `for k in details: v = details[k]` = items(), the two pure bindings at the head of the details loop and the run of attribute resets in startTestRun in any order, `x = self.current_tags` right before its only use, utf8 = utf-8 - the order of every call (test.id(), self._now(), startTestRun, self.status) is asserted as written',
-                   'content types are opaque tokens compared for equality: the render (repr(ContentType)) / parse (_make_content_type) round trip is C16\'s (another family)',
+                   'content types are opaque tokens compared for equality: the render (repr(ContentType)) / parse (_make_content_type) round trip is C16\'s (another family); the tokens are lower-case types with lower-case parameter names and no RFC 2047 encoded words - what the round trip does to other spellings (audit/C09 v4: case folding, decoding of encoded words) is recorded with C16',
+                   'INTERPRETATION modelled from the code, not repaired (audit/C09 v3, audit/C10 v1): "every non-empty detail" - a detail without chunks or with only empty chunks, incl. the skip reason "", is dropped on the consumer side (an attachment exists from its first non-empty chunk)',
                    'an exc_info is (ValueError, ValueError("boom"), None): TracebackContent yields one chunk, canonicalised to the token bytes "TB"; traceback formatting is not modelled',
                    'addSkip gets reason or details (alternatives, as in the extended API), never both',
                    'datetime.now(utc) is canonicalised to `now` after checking it is tz-aware UTC and inside the run window',
-                   'when startTestRun is left to the first startTest, no tags()/time() call precedes that startTest (tags() would raise AttributeError, the time would be forgotten by the implied startTestRun)',
+                   'a tags() / time() call BEFORE an explicit startTestRun() belongs to no run (startTestRun resets both; not expressible in the input); before the first startTest of a run that is started by that startTest they belong to the run (repaired: they used to raise AttributeError / be forgotten)',
                    'the history is well formed: runs startTestRun ... stopTestRun (only the first startTestRun may be left to the first startTest), per test [tags] [time] startTest [tags] [time] outcome stopTest; stopTestRun is not called on a decorator that was never started']
 
     manifest = {
@@ -198,9 +199,8 @@ class C09(Prop):
             # explicit times in some runs and none in others: a later run without time() is stamped with the wall clock
             runs.append(self.gen_run(rng, n, clock, rng.random() < 0.6))
         explicit = True if not runs[0] else rng.random() < 0.6
-        if not explicit:
-            # the first run is started by its first startTest: nothing may be reported to the decorator before it
-            runs[0][0][1] = runs[0][0][2] = None
+        # (not explicit: the first run is started by its first startTest - what unittest does with a supplied result and what
+        # PlaceHolder.run does; tags() and time() may precede that startTest and belong to the run)
         return [explicit, runs]
 
     def enumerate(self, tier):
@@ -223,6 +223,17 @@ class C09(Prop):
                         t = [tid, None, None, None, None, self.wrap(kind, [[name, 1, [list(chunk)]], [2, 13, [[0, 255]]]])]
                         yield [True, [[t]]]
                         yield [True, [[t, [0, None, None, None, None, self.wrap(kind, [[name, 12, [[65], list(chunk)]]])]]]]
+
+        # a run started by its first startTest, with every combination of tags() / time() before that startTest and inside the
+        # test; then a second, explicitly started run without own time
+        for g in (None, ['some', [[0, 1], []]], ['some', [[], [0]]]):
+            for t0 in (None, ['some', 1]):
+                for l in (None, ['some', [[2], [0]]]):
+                    for t1 in (None, ['some', 2]):
+                        for res in (['success', None], ['failure', 'err'], ['skip', ['reason', [119]]]):
+                            first = [0, g, t0, l, t1, res]
+                            yield [False, [[first]]]
+                            yield [False, [[first, [1, ['some', [[3], []]], None, None, None, ['success', None]]], [[0, None, None, None, None, ['success', None]]]]]
 
     def wrap(self, kind, ds):
         if kind == 'success':
@@ -285,7 +296,7 @@ class C09(Prop):
         for k in range(len(runs)):
             if len(runs) > 1 and (k > 0 or explicit or runs[1:2] and runs[1]):
                 cand = runs[:k] + runs[k + 1:]
-                if explicit or (cand and cand[0] and cand[0][0][1] is None and cand[0][0][2] is None):
+                if explicit or (cand and cand[0]):
                     yield [explicit, cand]
             for tests in self.shrink_run(runs[k], explicit or k > 0):
                 yield [explicit, runs[:k] + [tests] + runs[k + 1:]]
@@ -295,7 +306,7 @@ class C09(Prop):
     def shrink_run(self, tests, explicit):
         for i in range(len(tests)):
             rest = tests[:i] + tests[i + 1:]
-            if explicit or (rest and rest[0][1] is None and rest[0][2] is None):
+            if explicit or rest:
                 yield rest
         for i, t in enumerate(tests):
             for pos in (1, 2, 3, 4):
